@@ -60,6 +60,7 @@ func stringValue(p *Prog, pkg *packages.Package, e ast.Expr) (string, bool) {
 }
 
 func runC05(c *Ctx) {
+	defer c05SeverityPerBlock(c, "C05-R5")
 	p := c.P
 	c.Rule("C05-R1", "severity order, ParseSeverity/String inverse tables, --fail-on default", 11)
 	c.Rule("C05-R2", "verdict derives from `sev >= failOn` over CountBySeverity() keys; nil return dominated by the verdict test", 12)
@@ -829,4 +830,95 @@ func c05ReportsNotEditedInPlace(c *Ctx) {
 	}
 	c.Check(bad == "", "C05-R5", "Summary.reports is edited in place only by Summary's own methods", token.NoPos, itoa(n)+" in-place edits, all in Summary methods",
 		"Summary.reports is edited in place in "+bad+": the slice shares its backing array with the summary whose severities are counted after the reporters ran, so a report can be dropped or zeroed (severity Information) before the exit status is decided")
+}
+
+// c05SeverityPerBlock: the severity a configured check reports with is the one
+// of its own settings block. In config.parseRule every checks.Severity handed
+// to a constructor is a local with a single definition, and that definition
+// lies inside every loop that encloses the constructor call: a severity
+// variable that lives across the iterations of a loop over settings blocks
+// lets one block's `severity = "bug"` leak into the next block, and a run that
+// should only warn fails with the default --fail-on.
+func c05SeverityPerBlock(c *Ctx, rule string) {
+	fi := c.MustFunc(rule, "internal/config.parseRule")
+	if fi == nil {
+		return
+	}
+	info := fi.Pkg.TypesInfo
+	pm := parentMap(fi.Decl.Body)
+	loopsOf := func(n ast.Node) []ast.Node {
+		var out []ast.Node
+		for cur := pm[n]; cur != nil; cur = pm[cur] {
+			switch cur.(type) {
+			case *ast.RangeStmt, *ast.ForStmt:
+				out = append(out, cur)
+			}
+		}
+		return out
+	}
+	n, bad := 0, ""
+	ast.Inspect(fi.Decl.Body, func(nd ast.Node) bool {
+		call, ok := nd.(*ast.CallExpr)
+		if !ok {
+			return true
+		}
+		fn := Callee(info, call)
+		if fn == nil || fn.Pkg() == nil || relPkg(fn.Pkg().Path()) != "internal/checks" || !strings.HasPrefix(fn.Name(), "New") {
+			return true
+		}
+		for _, a := range call.Args {
+			if typeQName(info.TypeOf(a)) != "internal/checks.Severity" {
+				continue
+			}
+			id, isID := ast.Unparen(a).(*ast.Ident)
+			if !isID {
+				continue // a call or a constant: nothing to carry over
+			}
+			o, isVar := info.Uses[id].(*types.Var)
+			if !isVar || o.IsField() || o.Parent() == nil || o.Parent() == o.Pkg().Scope() {
+				continue
+			}
+			n++
+			var defs []*ast.AssignStmt
+			ast.Inspect(fi.Decl.Body, func(m ast.Node) bool {
+				if as, ok := m.(*ast.AssignStmt); ok {
+					for _, l := range as.Lhs {
+						if objOf(info, l) == types.Object(o) {
+							defs = append(defs, as)
+						}
+					}
+				}
+				return true
+			})
+			// defined once and never assigned again: nothing can be carried over. Otherwise the
+			// variable must at least be declared inside every loop around the constructor call.
+			okVar := len(defs) == 1 && defs[0].Tok == token.DEFINE
+			if !okVar && len(defs) > 0 {
+				var first *ast.AssignStmt
+				for _, d := range defs {
+					if d.Tok == token.DEFINE {
+						first = d
+					}
+				}
+				if first != nil {
+					okVar = true
+					dl := map[ast.Node]bool{}
+					for _, l := range loopsOf(first) {
+						dl[l] = true
+					}
+					for _, l := range loopsOf(call) {
+						if !dl[l] {
+							okVar = false
+						}
+					}
+				}
+			}
+			if !okVar {
+				bad = fn.Name() + " at " + c.P.Pos(call.Pos())
+			}
+		}
+		return true
+	})
+	c.Check(n >= 10 && bad == "", rule, "parseRule:every check gets the severity of its own settings block", fi.Decl.Pos(), itoa(n)+" severity arguments, each defined once (or declared inside the loops of its constructor call)",
+		"the severity passed to "+bad+" is a variable that is assigned more than once or outlives the iterations of the loop over settings blocks: a block without `severity` inherits the value of an earlier block")
 }
